@@ -20,11 +20,11 @@ TIMES = [(0, 0), (1, 1), (5, 127), (5, 128), (255, 256), (3, 65535), (3, 65536),
 FOREIGN = bytes.fromhex("80000009030011223344")
 
 
-def build_case(u):
-    cfg = gen.g_cfg(u, versions=("v3",))
+def build_case(u, need_auth=False, need_priv=False, force_discovered=False):
+    cfg = gen.g_cfg(u, versions=("v3",), need_auth=need_auth, need_priv=need_priv)
     n = u.range(5, 32)
     engine = b"\x80" + u.take(n - 1)
-    discovered = u.bool()
+    discovered = u.bool() or force_discovered
     cfg.engine_id = b"" if discovered else engine
     mode = u.choice(["with", "refresh"]) if discovered else u.choice(["with", "refresh", "none"])
     driver = u.choice(["sync", "async"])
